@@ -2,7 +2,7 @@
    Each is closed by [exact <lemma>] (or a two-line combination of lemmas) and followed by Print Assumptions.
    PD's behaviour is an explicit hypothesis:  pd : nat -> Z  is the sequence of timestamps PD hands out,
    pd_strict says it is strictly increasing. *)
-From Verif Require Import Oracle.Model Oracle.ModelSys Oracle.ModelVal Oracle.ModelInt Oracle.ProofsArith Oracle.ProofsSys Oracle.ProofsVal Oracle.ModelArr Oracle.ProofsInt Oracle.ProofsSeq Oracle.ProofsFresh Oracle.ProofsArr Oracle.ProofsTop.
+From Verif Require Import Oracle.Model Oracle.ModelSys Oracle.ModelVal Oracle.ModelInt Oracle.ProofsArith Oracle.ProofsSys Oracle.ProofsVal Oracle.ModelArr Oracle.ModelTxn Oracle.ProofsTxn Oracle.ProofsInt Oracle.ProofsSeq Oracle.ProofsFresh Oracle.ProofsArr Oracle.ProofsTop.
 From Coq Require Import Lia.
 Open Scope Z_scope.
 
@@ -105,6 +105,44 @@ Theorem C13_commit_wait_registrations : forall regs max_sleep_ns fuel script,
      (forall r, In r regs -> r < ts) /\ 0 < ts /\ In (Some ts) script).
 Proof. exact T_C13_commit_wait_registrations. Qed.
 Print Assumptions C13_commit_wait_registrations.
+
+(* --- the consumers.  tikv/kv.go getTimestampWithRetry (CurrentTimestamp, GetTimestampWithRetry): the result is the
+       FIRST answer of the oracle that is not an error, reached after at most fuel back-offs; one call per attempt --- *)
+Theorem C13_ts_with_retry : forall answers fuel calls r c,
+  ts_with_retry fuel answers calls = (r, c) ->
+  (c <= calls + S fuel)%nat /\
+  (forall ts, r = Some ts ->
+     exists k, nth_error answers k = Some (Some ts) /\ (forall j, (j < k)%nat -> nth_error answers j = Some None) /\
+               c = (calls + S k)%nat /\ (k <= fuel)%nat).
+Proof. exact ts_with_retry_spec. Qed.
+Print Assumptions C13_ts_with_retry.
+
+(* twoPhaseCommitter.execute, all three commit modes, causal consistency on or off, any registration sequence, any PD
+   answers, any back-off budget, any TiKV answer tk with tk m >= m: a commit that succeeds has a commit ts beyond EVERY
+   registered commit-wait value (and positive) *)
+Theorem C13_commit_consumer : forall tk m causal start regs ms fuel script ts reqmin c,
+  (forall x, x <= tk x) -> 0 <= start -> (forall r, In r regs -> 0 <= r) ->
+  commit_txn true tk m causal start regs ms fuel script = (Some ts, reqmin, c) ->
+  (forall r, In r regs -> r < ts) /\ 0 < ts.
+Proof. exact commit_txn_all. Qed.
+Print Assumptions C13_commit_consumer.
+
+(* with a constraint registered, the prewrite of an async-commit / 1PC transaction already carries a min_commit_ts
+   beyond every registered value: min_commit_ts - 1 is a PD answer obtained through GetTimestampForCommit *)
+Theorem C13_commit_consumer_min_commit_ts : forall tk m causal start regs ms fuel script ts reqmin c,
+  m <> M2PC -> 0 < cw_bound regs ->
+  commit_txn true tk m causal start regs ms fuel script = (Some ts, reqmin, c) ->
+  (forall r, In r regs -> r < reqmin) /\ ts = tk reqmin /\ In (Some (reqmin - 1)) script.
+Proof. exact commit_txn_reqmin. Qed.
+Print Assumptions C13_commit_consumer_min_commit_ts.
+
+(* the code without the `commitWaitUntilTSO > 0` clause: async commit under causal consistency commits below it *)
+Theorem C13_commit_consumer_no_clause_refuted :
+  exists tk m causal start regs ms fuel script ts reqmin c,
+    (forall x, x <= tk x) /\ 0 <= start /\
+    commit_txn false tk m causal start regs ms fuel script = (Some ts, reqmin, c) /\ exists r, In r regs /\ ts <= r.
+Proof. exact commit_txn_no_clause_refuted. Qed.
+Print Assumptions C13_commit_consumer_no_clause_refuted.
 
 (* --- ValidateReadTS + single flight, any number of validators, any schedule, any order of PD answers --- *)
 (* accept-complete: a rejected read timestamp is larger than everything PD had issued when the call began *)
@@ -407,6 +445,12 @@ Example ex_commit_wait_ok : commit_wait 100 1000000000 3 [Some 90; Some 100; Som
 Proof. vm_compute. reflexivity. Qed.
 Example ex_cw_registrations : cw_bound [100; 0; 50; 0] = 100 /\ commit_wait_regs [100; 0] 1000000000 3 [Some 90; Some 101] = (CwOk 101, 2%nat).
 Proof. vm_compute. split; reflexivity. Qed.
+Example ex_commit_consumer :
+  commit_txn true (fun x => x) MAsync true 10 [100; 0] 1000000000 3 [Some 90; Some 101] = (Some 102, 102, 2%nat) /\
+  commit_txn true (fun x => x) M1PC true 10 [] 1000000000 3 [Some 90] = (Some 11, 11, 0%nat) /\
+  commit_txn true (fun x => x) M2PC true 10 [100] 1000000000 0 [Some 90; Some 101] = (None, 11, 1%nat) /\
+  ts_with_retry 3 [None; None; Some 7] 0 = (Some 7, 3%nat).
+Proof. vm_compute. repeat split; reflexivity. Qed.
 Example ex_commit_wait_fuel : commit_wait 100 1000000000 1 [Some 90; Some 100; Some 101] = (CwErr, 2%nat).
 Proof. vm_compute. reflexivity. Qed.
 (* two calls race: the call holding the larger timestamp publishes first, the stale CAS of the other fails *)
